@@ -16,7 +16,10 @@
 
 use grevm_verif_rt::{ctl, pt};
 use shuttle_engine::scheduler::{Schedule, Scheduler, Task, TaskId};
-use shuttle_engine::{Config, FailurePersistence, MaxSteps, Runner};
+use shuttle_engine::runtime::execution::Execution;
+use shuttle_engine::runtime::thread::continuation::{ContinuationPool, CONTINUATION_POOL};
+use shuttle_engine::{Config, FailurePersistence, MaxSteps};
+use std::rc::Rc;
 use std::cell::RefCell;
 use std::panic::{catch_unwind, AssertUnwindSafe};
 use std::time::Instant;
@@ -33,8 +36,13 @@ pub struct StepRec {
 
 #[derive(Clone, Copy, PartialEq, Eq, Debug)]
 pub enum Granularity {
+    /// every intercepted operation is a decision
     Fine,
+    /// protocol points, yields and blocking events are decisions
     Coarse,
+    /// like coarse, but only the listed protocol points are decisions (larger atomic steps, so that
+    /// a higher deviation bound can be completed on one driver); yields and blocking events always are
+    Focus(&'static str, &'static [u32]),
 }
 
 impl Granularity {
@@ -42,13 +50,7 @@ impl Granularity {
         match self {
             Granularity::Fine => "fine",
             Granularity::Coarse => "coarse",
-        }
-    }
-    pub fn parse(s: &str) -> Option<Self> {
-        match s {
-            "fine" => Some(Granularity::Fine),
-            "coarse" => Some(Granularity::Coarse),
-            _ => None,
+            Granularity::Focus(name, _) => name,
         }
     }
 }
@@ -254,8 +256,17 @@ impl Driver<'_> {
             None => ids[0],
         };
         // coarse granularity: fine points and runtime-internal switches are not decisions
-        if self.gran == Granularity::Coarse && point < pt::YIELD && cur_runnable && !is_yielding {
-            return Some(TaskId::from(default));
+        if cur_runnable && !is_yielding {
+            let skip = match self.gran {
+                Granularity::Fine => false,
+                Granularity::Coarse => point < pt::YIELD,
+                Granularity::Focus(_, set) => {
+                    point < pt::YIELD || (point >= pt::FIRST_PROTOCOL && !set.contains(&point))
+                }
+            };
+            if skip {
+                return Some(TaskId::from(default));
+            }
         }
         let step = self.step;
         if step >= self.step_cap {
@@ -351,6 +362,12 @@ impl Scheduler for Sched {
 }
 
 pub const STACK_SIZE: usize = 4 << 20;
+
+/// Run `f` with a process-wide coroutine pool installed.
+pub fn with_pool<R>(f: impl FnOnce() -> R) -> R {
+    let pool = ContinuationPool::new();
+    CONTINUATION_POOL.set(&pool, f)
+}
 
 thread_local! {
     static ABANDON: RefCell<Option<Box<dyn FnMut(Option<&str>)>>> = const { RefCell::new(None) };
@@ -462,17 +479,29 @@ where
         config.failure_persistence = FailurePersistence::None;
         config.max_steps = MaxSteps::None;
         config.silence_warnings = true;
-        let sched = SingleOrDfs { single: single && first };
+        let sched: Rc<RefCell<dyn Scheduler>> = Rc::new(RefCell::new(SingleOrDfs { single: single && first }));
         first = false;
-        let runner = Runner::new(sched, config);
         let body = body.clone();
         let result = catch_unwind(AssertUnwindSafe(|| {
-            runner.run(move || {
-                ctl::set_fine(fine);
-                ctl::set_in_execution(true);
-                body();
-                ctl::set_in_execution(false);
-            })
+            // one coroutine pool for the whole process (see `with_pool`): stacks are reused across
+            // executions *and* jobs
+            loop {
+                let schedule = match sched.borrow_mut().new_execution() {
+                    None => break,
+                    Some(s) => s,
+                };
+                let body = body.clone();
+                Execution::new(sched.clone(), schedule).run(
+                    &config,
+                    move || {
+                        ctl::set_fine(fine);
+                        ctl::set_in_execution(true);
+                        body();
+                        ctl::set_in_execution(false);
+                    },
+                    std::panic::Location::caller(),
+                );
+            }
         }));
         ctl::set_in_execution(false);
         match result {
